@@ -238,6 +238,73 @@ def one_run(prog, exp, vn, mode, n, root, bindir):
     return report
 
 
+def viewer_kill_run(prog, exp, vn, delay_ms, root, bindir):
+    """the log viewer (the redo-log child of a top-level command) is a redo process too: kill it alone while the build runs.
+    The build has to go on as if nothing had happened (its writes to the viewer fail with EPIPE, which it ignores): the
+    command itself must end as the specification says for the history without any kill."""
+    import threading
+    v = variants(prog)[vn]
+    hist = exp[vn]
+    pj = harness.Project(prog, root, bindir, log_mode=None, jitter=True)
+    k = v['kill_at']
+    for st in hist[:k]:
+        if st['a'] == 'write':
+            pj.write_user(st['n'], st['v'])
+        elif st['a'] == 'cmd':
+            pj.run(argv_of(st), timeout=60)
+    killed = []
+    stop = []
+
+    def hunter():
+        t0 = time.time()
+        while not stop and not killed:
+            for d in os.listdir('/proc'):
+                if not d.isdigit():
+                    continue
+                try:
+                    with open('/proc/%s/cmdline' % d, 'rb') as f:
+                        cl = f.read().split(b'\0')
+                    if os.path.basename(cl[0]) != b'redo-log':
+                        continue
+                    with open('/proc/%s/environ' % d, 'rb') as f:
+                        if ('VT_LOG=' + pj.vtlog).encode() not in f.read():
+                            continue
+                    if (time.time() - t0) * 1000 >= delay_ms:
+                        os.kill(int(d), 9)
+                        killed.append(int(d))
+                        return
+                except (OSError, IndexError):
+                    continue
+            time.sleep(0.001)
+    th = threading.Thread(target=hunter, daemon=True)
+    th.start()
+    st = hist[k]
+    rc, so, se, started, to = pj.run(argv_of(st), timeout=60)
+    stop.append(1)
+    th.join()
+    diffs = []
+    if to:
+        diffs.append('the command did not terminate after its log viewer was killed')
+    if rc != st['rc']:
+        diffs.append('exit status %s after the log viewer was killed, the specification says %s: %s' % (rc, st['rc'], se[-300:]))
+    try:
+        snap = pj.snapshot()
+        diffs += [txt for (cat, txt) in pj.compare(snap, st['snap']) if cat in CATS or cat.split('.')[0] in CATS]
+    except Exception as ex:
+        diffs.append('state not readable: %r' % ex)
+    for st2 in hist[k + 1:]:
+        if st2['a'] == 'write':
+            pj.write_user(st2['n'], st2['v'])
+        elif st2['a'] == 'cmd':
+            rc, so, se, started, to = pj.run(argv_of(st2), timeout=60)
+            if rc != st2['rc']:
+                diffs.append('later rebuild: exit status %s, spec says %s' % (rc, st2['rc']))
+            snap = pj.snapshot()
+            diffs += ['later rebuild: ' + txt for (cat, txt) in pj.compare(snap, st2['snap']) if cat in CATS or cat.split('.')[0] in CATS]
+    return {'ok': not diffs, 'killed': len(killed), 'diffs': diffs, 'dir': root, 'variant': vn, 'mode': 'viewer', 'n': delay_ms,
+            'window': None}
+
+
 def run_sweep(pid, tier, verdict, bindir):
     """returns coverage dict, tool errors"""
     t0 = time.time()
@@ -276,10 +343,16 @@ def run_sweep(pid, tier, verdict, bindir):
                 cov['syscall_sweep']['%s/%s/%s' % (prog['name'], vn, mode)] = {'calls': total, 'kill_points_run': len(ns)}
                 for n in ns:
                     jobs.append((prog, exp, vn, mode, n, os.path.join(d, 'k_%s_%s_%03d' % (vn, mode, n))))
+            # the log viewer alone, killed after 0 .. 120 ms
+            if prog['name'] in ('ksweep_chain', 'ksweep_diamond', 'ksweep_stamped1plain'):
+                for ms in ([1, 6, 15] if tier == "quick" else range(0, 60, 2)):
+                    jobs.append((prog, exp, vn, 'viewer', ms, os.path.join(d, 'v_%s_%03d' % (vn, ms))))
 
     def work(j):
         prog, exp, vn, mode, n, dd = j
         try:
+            if mode == 'viewer':
+                return prog, viewer_kill_run(prog, exp, vn, n, dd, bindir)
             return prog, one_run(prog, exp, vn, mode, n, dd, bindir)
         except Exception as ex:
             import traceback
@@ -288,8 +361,12 @@ def run_sweep(pid, tier, verdict, bindir):
 
     with ThreadPoolExecutor(max_workers=8) as ex:
         for prog, rep in ex.map(work, jobs):
-            cov['syscall_kill_runs'] += 1
-            cov['syscall_kills_delivered'] += 1 if rep.get('killed') else 0
+            if rep.get('mode') == 'viewer':
+                cov['viewer_kill_runs'] = cov.get('viewer_kill_runs', 0) + 1
+                cov['viewer_kills_delivered'] = cov.get('viewer_kills_delivered', 0) + (1 if rep.get('killed') else 0)
+            else:
+                cov['syscall_kill_runs'] += 1
+                cov['syscall_kills_delivered'] += 1 if rep.get('killed') else 0
             if rep['ok']:
                 shutil.rmtree(rep['dir'], ignore_errors=True)
                 continue
@@ -297,8 +374,9 @@ def run_sweep(pid, tier, verdict, bindir):
                 json.dump({'program': prog, 'report': rep}, f, indent=1, default=list)
             key = 'ksweep:%s:%s' % (rep.get('window') or 'other', prog['name'])
             verdict.violation(key, rep['dir'],
-                              'kill before system call %s (%s, %s, program %s)%s:\n  %s'
-                              % (rep.get('n'), rep.get('mode'), rep.get('variant'), prog['name'],
+                              '%s %s (%s, %s, program %s)%s:\n  %s'
+                              % ('log viewer killed after ms' if rep.get('mode') == 'viewer' else 'kill before system call',
+                                 rep.get('n'), rep.get('mode'), rep.get('variant'), prog['name'],
                                  ' inside the known %s window' % rep['window'] if rep.get('window') else '',
                                  '\n  '.join(rep['diffs'][:6])))
     cov['syscall_sweep_states'] = states
